@@ -18,13 +18,15 @@ import time
 VERIF = os.path.dirname(os.path.dirname(os.path.abspath(__file__)))
 REPO = os.environ.get("VERIF_REPO", "/repo")
 PY = os.environ.get("VERIF_PYTHON", "/venv/bin/python")
-BUILD = os.path.join(VERIF, "build")
+_ALT = os.path.realpath(REPO) != "/repo"
+# a scratch worktree of /repo (mutation testing: VERIF_REPO=<dir>) gets its own build / evidence / replay directories
+BUILD = os.path.join(VERIF, "build") if not _ALT else os.path.join(VERIF, "build-" + hashlib.sha1(os.path.realpath(REPO).encode()).hexdigest()[:8])
 GEN = os.path.join(BUILD, "gen")
 PROPS_SRC = os.path.join(VERIF, "coq", "props")
 PROPS_OUT = os.path.join(BUILD, "props")
 COQ = os.path.join(VERIF, "coq")
-EVIDENCE = os.path.join(VERIF, "evidence")
-REPLAYS = os.path.join(VERIF, "replays")
+EVIDENCE = os.path.join(VERIF, "evidence") if not _ALT else os.path.join(BUILD, "evidence")
+REPLAYS = os.path.join(VERIF, "replays") if not _ALT else os.path.join(BUILD, "replays")
 KNOWN = os.path.join(VERIF, "known_findings.txt")
 SCRATCH_ROOT = os.environ.get("VERIF_SCRATCH", "/var/tmp")
 GUARD = "LSPROTOCOL_VERIF"
@@ -93,7 +95,8 @@ COQ_ARGS = ["-Q", COQ, "LSP", "-Q", GEN, "Gen", "-Q", PROPS_OUT, "Props"]
 
 def ensure_theory():
     """The generic theory (coq/*.v) is compiled by setup_cmd; rebuild it if something is stale."""
-    with build_lock("theory"):
+    with open(os.path.join(COQ, ".theory.lock"), "w") as lf:
+        fcntl.flock(lf, fcntl.LOCK_EX)
         p = subprocess.run(["make", "-C", COQ, "-j16", "-s"], capture_output=True, text=True, timeout=3600)
         if p.returncode != 0:
             raise RuntimeError("generic theory does not build:\n" + p.stdout[-3000:] + p.stderr[-3000:])
